@@ -23,6 +23,8 @@ type object struct {
 	// cas.v2 layout positions (only when v2)
 	hdrSize int
 	offsets []int64
+	// acRef: the ActionResult entry referencing this object (dependency-check operations)
+	acRef *object
 }
 
 func (o *object) size() int64 { return int64(len(o.content)) }
@@ -91,7 +93,7 @@ type upload struct {
 // backendCtl is what the case runners need from a fault-injecting backend.
 type backendCtl interface {
 	kindName() string
-	proxy() cache.Proxy    // the real proxy under test, wired to this backend
+	proxy() cache.Proxy        // the real proxy under test, wired to this backend
 	newPeerProxy() cache.Proxy // a second, independent proxy object for the same backend
 	sizeAware(kind cache.EntryKind) bool
 	put(o *object)
